@@ -1,12 +1,12 @@
 """C01 — a successful incremental build equals a clean build (DESIGN 5.1)."""
 from facts import AnalysisBroken
-from model import (facts_str, path_value, dstr, strip, fact_holds, mentions_field, mentions_call, mentions_var,
+from model import (norm_cond, facts_str, path_value, dstr, strip, fact_holds, mentions_field, mentions_call, mentions_var,
                    mentions_enum, const_value, walk)
 from rules import (absent_from, guarded, calls_to, field_writes, who_may_call, must_pass, dominated_by,
                    full_range, loops_over, every_iteration_passes, basename, error_discipline,
                    origins, reject_if, skip_conditions_exact, is_enum, is_field, is_var,
                    reached_only_via, canon_before_intern, loop_blocks)
-from props.scan_common import (OUTDIRTY, ts_role, ts_comparisons, check_cc, effect_returns,
+from props.scan_common import (mri_vars, mentions_mri, OUTDIRTY, ts_role, ts_comparisons, check_cc, effect_returns,
                                effect_assigns, true_succ)
 
 
@@ -91,14 +91,14 @@ def run(ctx):
     for name in ('DependencyScan::RecomputeEdgesInputsDirty', 'Plan::CleanNode'):
         f = prog.fn(name)
         check_cc(ctx, 'C01.CC', f, ('IN', 'IN'), '<',
-                 effect_assigns('most_recent_input', lambda r: True),
+                 effect_assigns('most_recent_input', lambda r: True, also=mri_vars),
                  'most_recent_input is replaced only by a strictly newer input (max-update)',
                  'CC4:max-update')
         # and the comparison is (current < candidate): the left operand is the running maximum
         for bid, a, rl, rr in ts_comparisons(f):
             if (rl, rr) == ('IN', 'IN'):
-                ctx.check('C01.CC', mentions_var(a['l'], 'most_recent_input') and
-                          not mentions_var(a['r'], 'most_recent_input'), f.name, 'CC4:max-update:direction',
+                ctx.check('C01.CC', mentions_mri(f, a['l']) and
+                          not mentions_mri(f, a['r']), f.name, 'CC4:max-update:direction',
                           'src/%s:%s' % (f.file, f.term(bid)['line']),
                           'the running maximum is on the smaller side: `%s`' % dstr(a))
     # every timestamp comparison in the scan / plan / builder is one that has a rule
@@ -183,7 +183,7 @@ def run(ctx):
                           'the re-check uses the updated most_recent_input')
     cn0 = prog.fn('Plan::CleanNode')
     isb = lambda d: isinstance(d, dict) and d.get('k') == 'var' and d['n'].split('#')[0] in ('begin', 'end')
-    mri_stores = [x for x in cn0.events('asg') if mentions_var(x['l'], 'most_recent_input')]
+    mri_stores = [x for x in cn0.events('asg') if mentions_mri(cn0, x['l'])]
     nmri = 0
     for l0 in loops_over(cn0, 'Edge::inputs_'):
         # the loop that computes most_recent_input (found by what it does, not by the name of its cursor)
@@ -195,8 +195,8 @@ def run(ctx):
             loop = l0
             skip_conditions_exact(
                 ctx, 'C01.O1', cn0, loop,
-                lambda x: x['k'] == 'asg' and mentions_var(x['l'], 'most_recent_input'),
-                [(lambda a: mentions_var(a, 'most_recent_input') and ('Node::mtime_' in dstr(a)), False)],
+                lambda x: x['k'] == 'asg' and mentions_mri(cn0, x['l']),
+                [(lambda a: mentions_mri(cn0, a) and ('Node::mtime_' in dstr(a)), False)],
                 'restat pruning: every non-order-only input takes part in the most-recent-input '
                 'computation unless it is not newer than the current maximum', 'CleanNode:mri-extra-skip')
     ctx.check('C01.O1', nmri >= 1, cn0.name, 'CleanNode:mri-loop', cn0.loc, 'CleanNode recomputes most_recent_input in a loop over the regular inputs')
@@ -230,6 +230,36 @@ def run(ctx):
         facts = scan.facts_at(t)
         lfacts = scan.facts_at(loads[0]) if loads else {}
         guard = [(k, p, a) for k, (p, a) in facts.items() if k in lfacts and lfacts[k][0] != p]
+        if not guard and loads:
+            # the two calls need not sit in the two arms of one `if`: a condition separates them when the try is reachable only
+            # through an edge that establishes it and the load only through an edge that establishes the opposite
+            cands = {}
+            for b_, blk_ in scan.blocks.items():
+                for i_, s_ in enumerate(blk_['succ']):
+                    for k_, p_, a_ in scan.edge_facts(b_, i_):
+                        if isinstance(strip(a_), dict) and strip(a_).get('k') == 'var':
+                            cands[k_] = a_
+            for k_, a_ in sorted(cands.items()):
+                for p_ in (True, False):
+                    def avoid(pol, k_=k_):
+                        return lambda b2, i2, s2: not any(k3 == k_ and p3 == pol for k3, p3, a3 in scan.edge_facts(b2, i2))
+                    if scan.find_path(None, lambda x: x is t, from_succ=scan.entry, edge_ok=avoid(p_)) is None and \
+                            scan.find_path(None, lambda x: x is loads[0], from_succ=scan.entry, edge_ok=avoid(not p_)) is None:
+                        guard.append((k_, p_, a_))
+            # a weaker condition that every such path also happens to establish (`dirty`, implied by `outputs_dirty`) says
+            # nothing once a sufficient one is among them: keep the variables whose definitions are the outputs check alone
+            def only_outputs_check(a_):
+                v_ = strip(a_)['n']
+                ds_ = [e.get('init') for e in scan.events('decl') if e['n'] == v_ and e.get('init') is not None] + \
+                      [e.get('r') for e in scan.events('asg') if isinstance(strip(e['l']), dict) and strip(e['l']).get('k') == 'var' and strip(e['l'])['n'] == v_]
+                for e in scan.events('asg'):     # `dirty = outputs_dirty = all()` defines outputs_dirty inside another assignment
+                    for x in walk(e.get('r')):
+                        if isinstance(x, dict) and x.get('k') == 'asg' and isinstance(strip(x.get('l')), dict) and strip(x['l']).get('n') == v_:
+                            ds_.append(x.get('r'))
+                return bool(ds_) and all(dstr(d_) in ('false', '0') or 'RecomputeOutputsDirtyCache::all' in dstr(d_) for d_ in ds_)
+            strong = [g for g in guard if only_outputs_check(g[2])]
+            if strong:
+                guard = strong
         if not guard:
             ctx.violation('C01.T1', scan.name, 'skip-LoadDeps:no-distinguishing-guard', scan.where(t),
                           'cannot find the condition that separates LoadDeps from LoadDepsTry')
@@ -281,7 +311,11 @@ def run(ctx):
         later = fact_holds(scan.facts_at_block(bid), first_visit, True)
         for x in b['ev']:
             if x['k'] in ('asg', 'decl') and mentions_field(x.get('r') if x['k'] == 'asg' else x.get('init'), 'Edge::deps_missing_'):
-                reads.append((x, later or fact_holds(scan.facts_at(x), first_visit, True)))
+                src_ = x.get('r') if x['k'] == 'asg' else x.get('init')
+                # `v = later_visit && edge->deps_missing_`: the right operand is read only when the left one holds
+                conj = any(isinstance(y, dict) and y.get('k') == 'bin' and y.get('op') == '&&' and mentions_field(y.get('r'), 'Edge::deps_missing_') and
+                           first_visit(norm_cond(prog, y.get('l'))[0]) and norm_cond(prog, y.get('l'))[1] is True for y in walk(src_))
+                reads.append((x, later or conj or fact_holds(scan.facts_at(x), first_visit, True)))
         t = b.get('term') or {}
         if mentions_field(t.get('cond'), 'Edge::deps_missing_'):
             reads.append(({'_b': bid, 'line': t.get('line')}, later))
